@@ -139,6 +139,7 @@ func (c *oCache) Get(ctx context.Context, id string) (value Object, err error) {
 		retries int
 	)
 	for {
+		verifYield("get.lookup", id)
 		c.mu.Lock()
 		if c.closed {
 			c.mu.Unlock()
@@ -153,6 +154,7 @@ func (c *oCache) Get(ctx context.Context, id string) (value Object, err error) {
 		}
 		e.lastUsage = time.Now()
 		c.mu.Unlock()
+		verifYield("get.waitClose", id)
 		reload, err := e.waitClose(ctx, id)
 		if err != nil {
 			return nil, err
@@ -192,6 +194,7 @@ func (c *oCache) Get(ctx context.Context, id string) (value Object, err error) {
 }
 
 func (c *oCache) Pick(ctx context.Context, id string) (value Object, err error) {
+	verifYield("pick.lookup", id)
 	c.mu.Lock()
 	val, ok := c.data[id]
 	if !ok || val.isClosing() {
@@ -205,6 +208,8 @@ func (c *oCache) Pick(ctx context.Context, id string) (value Object, err error) 
 
 func (c *oCache) load(ctx context.Context, id string, e *entry) {
 	defer close(e.load)
+	defer verifYield("load.signal", id)
+	verifYield("load.begin", id)
 	ctx, cancel := context.WithCancel(ctx)
 	e.setCancel(cancel)
 	value, err := c.loadFunc(ctx, id)
@@ -213,6 +218,7 @@ func (c *oCache) load(ctx context.Context, id string, e *entry) {
 	// loadFunc failing on its own — recorded so Get's waiters can retry.
 	aborted := ctx.Err() != nil
 	cancel()
+	verifYield("load.commit", id)
 
 	c.mu.Lock()
 	defer c.mu.Unlock()
@@ -230,6 +236,7 @@ func (c *oCache) load(ctx context.Context, id string, e *entry) {
 }
 
 func (c *oCache) Remove(ctx context.Context, id string) (ok bool, err error) {
+	verifYield("remove.lookup", id)
 	c.mu.Lock()
 	if c.closed {
 		c.mu.Unlock()
@@ -278,6 +285,7 @@ func (c *oCache) removeCtx(loadCtx, closingCtx context.Context, e *entry) (ok bo
 }
 
 func (c *oCache) RemoveSame(ctx context.Context, id string, value Object) (ok bool, err error) {
+	verifYield("removeSame.lookup", id)
 	c.mu.Lock()
 	if c.closed {
 		c.mu.Unlock()
@@ -298,6 +306,7 @@ func (c *oCache) RemoveSame(ctx context.Context, id string, value Object) (ok bo
 }
 
 func (c *oCache) TryRemove(id string) (ok bool, err error) {
+	verifYield("tryRemove.lookup", id)
 	c.mu.Lock()
 
 	if c.closed {
@@ -334,6 +343,7 @@ func (c *oCache) TryRemove(id string) (ok bool, err error) {
 }
 
 func (c *oCache) DoLockedIfNotExists(id string, action func() error) error {
+	verifYield("doLocked", id)
 	c.mu.Lock()
 	defer c.mu.Unlock()
 	if c.closed {
@@ -346,6 +356,7 @@ func (c *oCache) DoLockedIfNotExists(id string, action func() error) error {
 }
 
 func (c *oCache) Add(id string, value Object) (err error) {
+	verifYield("add", id)
 	c.mu.Lock()
 	defer c.mu.Unlock()
 	if _, ok := c.data[id]; ok {
@@ -358,6 +369,7 @@ func (c *oCache) Add(id string, value Object) (err error) {
 }
 
 func (c *oCache) ForEach(f func(obj Object) (isContinue bool)) {
+	verifYield("forEach", "")
 	var objects []Object
 	c.mu.Lock()
 	for _, v := range c.data {
@@ -391,6 +403,7 @@ func (c *oCache) ticker() {
 }
 
 func (c *oCache) GC() {
+	verifYield("gc.collect", "")
 	c.mu.Lock()
 	if c.closed {
 		c.mu.Unlock()
@@ -433,6 +446,7 @@ func (c *oCache) Len() int {
 }
 
 func (c *oCache) Close() (err error) {
+	verifYield("close.collect", "")
 	c.mu.Lock()
 	if c.closed {
 		c.mu.Unlock()
